@@ -87,6 +87,7 @@ func runC14(cases string, res *Result) {
 	c14ManyTags(res)
 	c14ExactCapacities(res)
 	c14HeldSerialisedForms(res)
+	c14BodiesOfAnySize(res)
 	readCases(cases, func(c Case) {
 		if _, has := c["src"]; has {
 			src := c.hexs("src")
